@@ -7,7 +7,7 @@ import shutil
 import vlib
 
 PROPERTIES = ["C11"]
-TAG_UNIVERSE = {"C11": ["C11_Halt", "C11_NoProgress"]}
+TAG_UNIVERSE = {"C11": ["C11_Halt"]}
 
 
 def run(tier, seed):
@@ -80,6 +80,7 @@ def _panic_site(t):
 
 
 MATCHERS = {
+    "votepower_int64_overflow": lambda t: "Int64() out of bound" in _panic_site(t) and t["observed"]["ev"] == "EndBlock",
     "slash_zero_value_division": lambda t: "division by zero" in _panic_site(t) and t["observed"]["ev"] == "BeginBlock",
 }
 
